@@ -232,6 +232,19 @@ void SCPI_RegSet(scpi_t * context, scpi_reg_name_t name, scpi_reg_val_t val) {
                 break;
             }
             case SCPI_REG_CLASS_ENAB:
+            {
+                /* enable mask changed - update summary bit in parent register */
+                scpi_bool_t summary = SCPI_RegGet(context, register_group.event) & val;
+
+                name = register_group.parent_reg;
+                val = SCPI_RegGet(context, register_group.parent_reg);
+                if (summary) {
+                    val |= register_group.parent_bit;
+                } else {
+                    val &= ~(register_group.parent_bit);
+                }
+                break;
+            }
             case SCPI_REG_CLASS_NTR:
             case SCPI_REG_CLASS_PTR:
                 return;
